@@ -216,6 +216,9 @@ func (r *Run) Violationf(key string, c interface{}, format string, a ...interfac
 }
 
 // ReplayCase unmarshals the case of a replay file, if one was given.
+// IsReplay reports whether the run replays one recorded case.
+func (r *Run) IsReplay() bool { return r.replay != nil }
+
 func (r *Run) ReplayCase(v interface{}) bool {
 	if r.replay == nil {
 		return false
